@@ -119,11 +119,11 @@ PROPS = {
     "C01": dict(run=gateway_run(["stream", "gc", "query", "win-load", "win-query", "win-alias", "win-gc"], EV)),
     "C02": dict(run=tables.combine(gateway_run(["gc", "stream", "win-gc", "win-load"], EV), tables.tables_run(["gc"], "collector"))),
     "C03": dict(run=gateway_run(["stream", "access", "win-load", "win-recheck"], ["cev"])),
-    "C07": dict(run=gateway_run(["gc", "access", "win-gc", "win-recheck"], ["cres"])),
+    "C07": dict(run=gateway_run(["gc", "access", "win-gc", "win-recheck", "thr-ref1"], ["cres"])),
     "C08": dict(run=gateway_run(["gc", "cache", "win-gc", "win-evict"], ["cres"])),
     "C09": dict(run=gateway_run(["cache", "query", "win-evict"], ["msub", "munsub", "mreq"])),
     "C10": dict(run=gateway_run(["access", "win-recheck", "win-indirect"], ["mreq", "cres", "cev"])),
-    "C11": dict(run=gateway_run(["cache", "access", "win-evict"], ["close", "sockClosed"])),
+    "C11": dict(run=gateway_run(["cache", "access", "win-evict", "thr-reset1"], ["close", "sockClosed"])),
     "C04": dict(run=gateway_run(["access", "cache", "win-recheck", "win-indirect"], ["mres", "cres"])),
     "C05": dict(run=tables.combine(gateway_run(["access", "win-recheck"], ["mreq"]), tables.tables_run(["calllist"], "CanCall"))),
     "C12": dict(run=tables.combine(tables.tables_run(["pattern", "coldiff", "modeldiff"], "reset matching / diff"),
@@ -163,3 +163,56 @@ TEXT = {
     "C15": _t("Any panic of the gateway process or failure to reach quiescence in any replayed schedule of any family is a violation; the crashing schedule is the replay.", TECH),
 }
 NOT_YET = {}
+
+
+def throttle_model(ctx):
+    """Exhaustive TLC run of spec/Throttle.tla (safety + liveness) and validation of the directly driven real Throttle."""
+    import os, shutil, json
+    from .common import SPEC, tlc, tlc_stats, MachineryError
+    from . import tables
+    d = os.path.join(ctx.workdir, "throttle-mc")
+    os.makedirs(d, exist_ok=True)
+    shutil.copy(os.path.join(SPEC, "Throttle.tla"), d)
+    tot_s = tot_t = 0
+    for lim in (1, 2, 3):
+        with open(os.path.join(d, "Throttle.cfg"), "w") as f:
+            f.write("SPECIFICATION Spec\nCONSTANTS Limit = %d\n MaxAdds = %d\nINVARIANTS TypeOK Bounded Saturated Consistent QueuedNotStarted FIFO\n"
+                    "PROPERTIES AllStart\nCHECK_DEADLOCK FALSE\n" % (lim, 6 if ctx.tier == "quick" else 8))
+        p = tlc("Throttle.tla", d, [], timeout=900, workers=4)
+        if "No error has been found" not in p.stdout:
+            raise MachineryError("Throttle.tla does not satisfy its own properties (model bug):\n" + p.stdout[-2000:])
+        g, dist = tlc_stats(p.stdout)
+        tot_s += dist
+        tot_t += g
+    # direct drive of the real Throttle
+    binp = tables.build_fn(ctx.workdir)
+    td = os.path.join(ctx.workdir, "thrtrace")
+    os.makedirs(td, exist_ok=True)
+    env = dict(os.environ, VERIF_OUT=td, VERIF_THR_RUNS="300" if ctx.tier == "quick" else "3000", VERIF_SEED=str(ctx.seed))
+    from .common import run
+    pr = run([binp, "-test.run", "^TestTraceThrottle$"], cwd=td, env=env, check=False)
+    viols = []
+    lines = 0
+    if pr.returncode != 0:
+        viols.append(dict(p="C19", why="the real Throttle crashed when driven directly: " + pr.stdout[-600:], kf="", confirmed=True))
+    else:
+        shutil.copy(os.path.join(SPEC, "ThrottleTrace.tla"), td)
+        os.replace(os.path.join(td, "throttle.ndjson"), os.path.join(td, "trace.ndjson"))
+        with open(os.path.join(td, "ThrottleTrace.cfg"), "w") as f:
+            f.write("SPECIFICATION Spec\nPOSTCONDITION Accepted\nCHECK_DEADLOCK FALSE\n")
+        p = tlc("ThrottleTrace.tla", td, [], timeout=900)
+        vp = os.path.join(td, "viol.json")
+        if not os.path.exists(vp) or "Error:" in p.stdout:
+            raise MachineryError("ThrottleTrace validation failed:\n" + p.stdout[-2000:])
+        _, lines = tlc_stats(p.stdout)
+        for v in json.load(open(vp))[:5]:
+            viols.append(dict(p="C19", why="directly driven Throttle: " + v["why"], kf="", confirmed=True))
+    cov = dict(states=tot_s, transitions=tot_t, traces_validated_against_impl=1, evaluations=lines, distinct_nontrivial=lines,
+               samples=[{"model": "spec/Throttle.tla limits 1..3, invariants Bounded/Saturated/Consistent/FIFO, liveness AllStart under WF(Done)"}],
+               rule="exhaustive TLC on Throttle.tla; random Add/Done orders on the real Throttle validated step by step by ThrottleTrace.tla", exhaustive=False)
+    return dict(coverage=cov, violations=viols, level="model_checking", assumptions=["every started callback eventually calls Done (weak fairness)"])
+
+
+PROPS["C19"] = dict(run=tables.combine(throttle_model, gateway_run(["thr-ref1", "thr-ref2", "thr-reset1", "thr-reset2"], ["note", "mreq"])))
+TEXT["C19"] = _t("spec/Throttle.tla is model-checked exhaustively (bound, saturation, FIFO hand-over, every added callback eventually starts under any answer order); the real Throttle is driven directly and every Add/Done validated against it; at system level the thrAdd/thrDone notes of replayed schedules with reset/reference throttles of 1 and 2 are checked against the same transition rules, the limit, and emptiness at quiescence.",
+                 "TLC exhaustive on Throttle.tla + trace validation of the real Throttle (ThrottleTrace.tla) + observer rules on gateway traces")
